@@ -80,14 +80,14 @@ class DlHistories(Stream):
         for ia, ea in L.PAIRS:
             slow = ia == 1 or ea == 1
             for kind in ("octet", "carry", "wrap24"):
-                n = (6 if slow else 14) if quick else (14 if slow else 40)
+                n = (8 if slow else 20) if quick else (16 if slow else 40)
                 scs.append(scenario(rng, ia, ea, kind, n, rng.chance(1, 3)))
         for ia, ea in [(2, 0), (2, 2)]:
             scs.append(scenario(rng, ia, ea, "wrap24", 38, True))
-        for i in range(12 if quick else 300):
+        for i in range(30 if quick else 400):
             ia, ea = rng.choice(L.PAIRS)
             slow = ia == 1 or ea == 1
-            n = rng.range(1, 6 if slow else 30) if quick else rng.range(1, 40)
+            n = rng.range(1, 8 if slow else 40) if quick else rng.range(1, 40)
             scs.append(scenario(rng, ia, ea, rng.choice(["octet", "carry", "wrap24", "mid"]), n, rng.chance(1, 2)))
         return reference_packets(scs)
 
